@@ -9,6 +9,11 @@ const GOOD: [&str; 9] = ["addi t0, t0, 1", "lbl: add t1, t1, t2", "lw a0, 4(sp)"
 const BAD: [&str; 14] = ["addi t0, t0", "foo t0, t1", "addi t0, t0, zz", "add t0, t1, @", "lw a0, 4(sp", ".asciz \"abc", "li t0, 99999999999",
                          "jal", "beq t0, t1", ".bogus 3", "add t0, t1, t2 t3", "'x", ")", "move t0, t1 ; not"];
 
+/// lines that may be accepted or rejected (data directives with values in and out of range, strings, unsupported directives):
+/// the accounting is the same either way
+const ANY: [&str; 14] = [".byte 1, 300", ".half 70000", ".byte -200", ".word 99999999999", ".byte 1, 2, 3", ".half 1", ".asciz \"a b\"", ".string \"x\"",
+                         ".space 4", ".align 2", ".globl lbl", ".data", ".dword 1", ".float 1.5"];
+
 fn kind(n: &ParserNode) -> String {
     // identity of a node up to its position: the statement text it was read from
     n.raw_text().split_whitespace().collect::<Vec<_>>().join(" ")
@@ -58,8 +63,35 @@ fn check_file(lines: &[&str], trailing_newline: bool, eol: &str) -> Option<Strin
     None
 }
 
-pub fn search(_v: &serde_json::Value) -> i32 {
+/// every character prefix of every statement form of the decode table, as a middle line and as the final line (with and
+/// without a line terminator): a truncated statement is still a line that must yield a node or an error located on it
+fn search_prefixes(n: &mut u64) -> Option<String> {
+    for st in crate::decode::statement_forms() {
+        let chars: Vec<char> = st.chars().collect();
+        for cut in 1..=chars.len() {
+            let pre: String = chars[..cut].iter().collect();
+            if pre.trim().is_empty() { continue; }
+            for (nl, eol) in [(false, "\n"), (true, "\n"), (true, "\r\n")] {
+                for lines in [vec!["addi t0, t0, 1", pre.as_str()], vec!["addi t0, t0, 1", pre.as_str(), "L:", "sub t1, t1, t2"]] {
+                    *n += 1;
+                    if let Some(w) = check_file(&lines, nl, eol) { return Some(w); }
+                }
+            }
+        }
+    }
+    None
+}
+
+pub fn search(v: &serde_json::Value) -> i32 {
+    if let Some(text) = v.get("inputs").and_then(|i| i.get("text")).and_then(|s| s.as_str()) {
+        let (eol, body) = if text.contains("\r\n") { ("\r\n", text.to_string()) } else { ("\n", text.to_string()) };
+        let nl = body.ends_with(eol);
+        let trimmed = if nl { &body[..body.len() - eol.len()] } else { &body[..] };
+        let lines: Vec<&str> = trimmed.split(eol).collect();
+        return match check_file(&lines, nl, eol) { Some(w) => { println!("witness: {w}"); 1 } None => { println!("no line of {text:?} is dropped"); 0 } };
+    }
     let mut n = 0u64;
+    if let Some(w) = search_prefixes(&mut n) { println!("witness: {w}"); return 1; }
     for bad in BAD {
         for g1 in GOOD { for g2 in GOOD {
             for (nl, eol) in [(true, "\n"), (false, "\n"), (true, "\r\n")] {
@@ -74,8 +106,15 @@ pub fn search(_v: &serde_json::Value) -> i32 {
         n += 1;
         if let Some(w) = check_file(&[g1, g2], nl, eol) { println!("witness: {w}"); return 1; }
     } } }
-    if let Some(w) = search_includes() { println!("witness: {w}"); return 1; }
-    println!("no failing input among {n} single files and 675 base+include pairs");
+    for a in ANY { for g1 in GOOD { for a2 in ANY { for (nl, eol) in [(true, "\n"), (false, "\n"), (true, "\r\n")] {
+        for lines in [vec![g1, a, "lbl:", g1], vec![a, g1], vec![g1, a], vec![a, a2, g1], vec![g1, a, a2]] {
+            n += 1;
+            if let Some(w) = check_file(&lines, nl, eol) { println!("witness: {w}"); return 1; }
+        }
+    } } } }
+    let mut pairs = 0u64;
+    if let Some(w) = search_includes(&mut pairs) { println!("witness: {w}"); return 1; }
+    println!("no failing input among {n} single files and {pairs} base+include pairs");
     0
 }
 
@@ -102,10 +141,12 @@ impl FileReader for MemReader {
 }
 
 /// every non-blank line of both files yields a node or an error located on it IN THAT FILE
-fn check_two_files(main: &[&str], util: &[&str]) -> Option<String> {
+fn check_two_files(main: &[&str], util: &[&str]) -> Option<String> { check_two_files_nl(main, util, true, "\n") }
+
+fn check_two_files_nl(main: &[&str], util: &[&str], util_newline: bool, eol: &str) -> Option<String> {
     let mut disk = HashMap::new();
-    disk.insert("main.s".to_string(), main.join("\n") + "\n");
-    disk.insert("util.s".to_string(), util.join("\n") + "\n");
+    disk.insert("main.s".to_string(), main.join(eol) + eol);
+    disk.insert("util.s".to_string(), util.join(eol) + if util_newline { eol } else { "" });
     let res = catch_unwind(AssertUnwindSafe(|| {
         let mut parser = RVParser::new(MemReader { disk, ..Default::default() });
         let (nodes, errors) = parser.parse_from_file("main.s", false);
@@ -128,13 +169,27 @@ fn check_two_files(main: &[&str], util: &[&str]) -> Option<String> {
     None
 }
 
-pub fn search_includes() -> Option<String> {
+pub fn search_includes(pairs: &mut u64) -> Option<String> {
     let bads = ["foo t0, t1", "bar t1, t2", ".bogus 3", "addi t0, t0, zz", "add t0, t1, @"];
     for b1 in bads { for b2 in bads { for g in GOOD {
         for (main, util) in [(vec![b1, ".include \"util.s\"", g], vec![b2, g]), (vec![g, b1, ".include \"util.s\""], vec![g, b2]),
                              (vec![".include \"util.s\"", b1, g], vec![b2])] {
+            *pairs += 1;
             if let Some(w) = check_two_files(&main, &util) { return Some(w); }
         }
     } } }
+    // a malformed line at every position of an included file of 1..3 lines (also as its unterminated last line), the include
+    // statement at every position of a base file of 5 lines
+    let all_bad: Vec<&str> = BAD.iter().copied().chain(["lw a0, 4(", "sw a0", ".word 1,", "addi t0, t0, 1 ;"]).collect();
+    for b in &all_bad { for ulen in 1..=3usize { for bpos in 0..ulen { for ipos in 0..5usize {
+        for (unl, eol) in [(true, "\n"), (false, "\n"), (true, "\r\n")] {
+            let util: Vec<&str> = (0..ulen).map(|k| if k == bpos { *b } else { ["helper:", "nop", "ret"][k] }).collect();
+            let body = ["main:", "add a1, a1, a1", "sub a2, a2, a2", "xor a3, a3, a3", "li a7, 10"];
+            let mut main: Vec<&str> = body.to_vec();
+            main[ipos] = ".include \"util.s\"";
+            *pairs += 1;
+            if let Some(w) = check_two_files_nl(&main, &util, unl, eol) { return Some(w); }
+        }
+    } } } }
     None
 }
